@@ -43,7 +43,7 @@ def main():
     rc1, out1 = sh("(cargo test --offline --lib; cargo test --offline --doc) 2>&1 | grep -E '^test result|^error' ", cwd=wt)
     suite_ok = out1.count("test result: ok") >= 2 and "FAILED" not in out1 and "error" not in out1 and "120 passed" in out1 and "6 passed" in out1
     rc2, out2 = sh("cargo test --offline --test seeded_demo 2>&1 | tail -15", cwd=wt)
-    demo_fails_with = "test result: FAILED" in out2 or "panicked" in out2 or "could not compile" in out2
+    demo_fails_with = "test result: FAILED" in out2 or "panicked" in out2 or "could not compile" in out2 or "SIGABRT" in out2 or "overflowed its stack" in out2 or "SIGSEGV" in out2
     meta["ran"].append({"cmd": "cargo test --offline --lib --doc (with change)", "ok": suite_ok, "out": out1.strip()[-300:]})
     meta["ran"].append({"cmd": "cargo test --offline --test seeded_demo (with change)", "fails": demo_fails_with, "out": out2.strip()[-600:]})
     sh(["git", "apply", "-R", patch], cwd=wt)
